@@ -50,7 +50,7 @@ Definition run_names_pair (a : args) : args :=
         [b2n (list_beq h2 h1 && owned_eq o2 o1); b2n (list_beq g2 h1 && eq_ic s2 r1);
          b2n (match owned_cmp o2 o1 with Eq => true | _ => false end);
          b2n (match cmp_ic s2 r1 with Eq => true | _ => false end)] ]
-    | _, _, _, _ => [[888888]]
+    | _, _, _, _ => [[18446744073710440504]]
     end
   | _, _ => [[777]]
   end.
@@ -109,7 +109,7 @@ Definition run_names_header (a : args) : args :=
       [ [1]; h'; as_ref o; as_ref o';
         [b2n (owned_eq o o'); c2n (owned_cmp o o'); b2n (list_beq w w')];
         enc_writes w ]
-    | _, _ => [[888888]]
+    | _, _ => [[18446744073710440504]]
     end
   else [[0]].
 
